@@ -429,8 +429,20 @@ func (m *Machine) appendToLines(ls *Lines, add Value) Value {
 			m.unsupported("appending line-structured data after a partial line")
 		}
 		out.L = append(out.L, x.L...)
+	case *sym.Str:
+		// symbolic chunk: harness alphabets are newline-free, so a newline can only be a
+		// constant character; a constant trailing newline completes the line
+		if x.Len.IsConst() {
+			n := int(x.Len.Val)
+			if n > 0 && x.Ch[n-1].IsConst() && x.Ch[n-1].Val == '\n' {
+				body := &sym.Str{Len: m.C.L(n - 1), Ch: x.Ch[:n-1]}
+				out.L = append(out.L, m.concatV(pending, m.normScalar(body)))
+				pending = ""
+				break
+			}
+		}
+		pending = m.concatV(pending, add)
 	default:
-		// symbolic chunk without newline knowledge: assumed newline-free (harness alphabet)
 		pending = m.concatV(pending, add)
 	}
 	if !m.emptyV(pending) {
